@@ -5,6 +5,7 @@ import Mathlib.Tactic.Linarith
 import Mathlib.Tactic.Ring
 import Mathlib.Tactic.FieldSimp
 import ERP.Lemmas.GenArith
+import ERP.Lemmas.GenConsts
 /-! # C16 — Arc moves are sampled faithfully (over ℝ, with `Real.sqrt/sin/cos`, `atan2 = Complex.arg`)
 
 About `T.planArc`, which the refinement theorem identifies with `planArc` of the faithful model on
